@@ -241,7 +241,7 @@ func (c *LocalActionsCache) FindMetadata(spec string) (*ActionMetadata, bool, er
 	var meta ActionMetadata
 	if err := yaml.Unmarshal(b, &meta); err != nil {
 		c.writeCache(spec, nil) // Remember action was invalid
-		msg := strings.ReplaceAll(err.Error(), "\n", " ")
+		msg := singleLine(err.Error())
 		return nil, false, fmt.Errorf("could not parse action metadata in %q: %s", dir, msg)
 	}
 	meta.file = f
